@@ -343,6 +343,19 @@ fn programs(family: &str) -> Vec<(String, Outcome)> {
             p(&format!("{}start :: fn do\n    a := 1\n    case a do\n        X ->\n            print(2)\n        end\n        else\n            print(2)\n        end\n    end\nend\n", enum_a), Outcome::Reject);
             p(&arms("        X v ->\n            print(v + \"s\")\n        end\n        else\n            print(2)\n        end\n"), Outcome::Reject);
         }
+        "blob" => {
+            let b = "B :: blob {\n    a: int,\n    b: int,\n}\nX :: externblob {\n    a: int\n}\n";
+            let st = |body: &str| format!("{}start :: fn do\n{}end\n", b, body);
+            p(&st("    x := B { a: 1, b: 2 }\n"), Outcome::Accept);
+            p(&st("    x := B { a: 1 }\n"), Outcome::Reject);
+            p(&st("    x := B { b: 1 }\n"), Outcome::Reject);
+            p(&st("    x := B { a: 1, b: 2, c: 3 }\n"), Outcome::Reject);
+            p(&st("    x := B { a: 1, c: 3 }\n"), Outcome::Reject);
+            p(&st("    x := B { a: 1, b: 2 }\n    y := x.c\n"), Outcome::Reject);
+            p(&st("    x := B { a: 1, b: 2 }\n    y := x.a + x.b\n"), Outcome::Accept);
+            p(&st("    x := B { a: 1, b: \"s\" }\n"), Outcome::Reject);
+            p(&st("    x := X { a: 1 }\n"), Outcome::Reject);
+        }
         "nopanic" => {
             p("B :: blob { a: int }\nstart :: fn do\n    B :: blob { a: int }\n    print(1)\nend\n", Outcome::Reject);
             p("E :: enum\n    X,\nend\nstart :: fn do\n    E :: enum\n        X,\n    end\nend\n", Outcome::Reject);
